@@ -6,10 +6,10 @@
 package pfcpiface
 
 import (
-	"io"
 	"encoding/json"
 	"errors"
 	"fmt"
+	"io"
 	"math"
 	"math/big"
 	"net/http"
